@@ -521,13 +521,28 @@ class Interp:
             return Opaque(z3.Const(self.reg.fresh(base), v.term.sort()), v.tag)
         if v is None:
             return None
+        if isinstance(v, Ref):
+            # the object stays the same object; its (non-dunder) fields become arbitrary
+            heap = self.state.heap[v.oid]
+            for k in list(heap):
+                if k.startswith('__'):
+                    continue
+                try:
+                    heap[k] = self.fresh_like(heap[k], "%s.%s" % (base, k))
+                except OutOfSubset:
+                    raise
+            return v
         if type(v).__name__ == 'SymDictOfLists':
             return type(v).fresh(self, v.ksort, v.esort, base)
         if isinstance(v, RowVal):
             return RowVal([self.fresh_like(x, base + "[%d]" % i) for i, x in enumerate(v)], v.kind)
         if isinstance(v, (list, tuple)) and all(is_scalar(x) or isinstance(x, (list, tuple)) for x in v):
             # fixed-length container keeps its length (only valid if the loop does not resize it; checked by caller)
-            return type(v)(self.fresh_like(x, base + "[%d]" % i) for i, x in enumerate(v))
+            items = [self.fresh_like(x, base + "[%d]" % i) for i, x in enumerate(v)]
+            try:
+                return type(v)(items)
+            except TypeError:
+                return items
         raise OutOfSubset("cannot havoc %r (give havoc_types)" % (v,))
 
     def name_seq(self, seq, base):
